@@ -792,6 +792,17 @@ theorem TP_id (t : CQTy) : (CQMap.id t : CQMap R).TP := by
     show iv _ * _ = _
     rw [iv_neg (fun h => hne ⟨h.1.symm, h.2.1.symm, h.2.2.symm⟩), zero_mul]
 
+/-- The scalar 1 (the doubled value of a phase) is trace-preserving. -/
+theorem TP_scalar_one : (CQMap.scalar 1 : CQMap R).TP := by
+  rw [TP_iff]
+  intro c q p _ hq hp
+  have hq : q < 1 := hq
+  have hp : p < 1 := hp
+  obtain rfl : q = 0 := by omega
+  obtain rfl : p = 0 := by omega
+  show sum3 1 1 (fun x y z => (1 : R) * iv (y = z)) = _
+  simp [sum3, sumN_succ]
+
 theorem TP_discard (t : CQTy) : (CQMap.discard t : CQMap R).TP := by
   rw [TP_iff]
   intro c q p _ _ _
@@ -1024,6 +1035,9 @@ inductive Listed : CBox R → Prop
   | stochastic (d c : WTy) (u : Mat R) : (F d).Q = 1 → (F c).Q = 1 →
       (∀ i, i < (F d).C → sumN (F c).C (fun j => u.f i j) = 1) → Listed (.classical d c u)
   | swap (l r : WTy) : Listed (.swap l r)
+  /-- a global phase: a pure scalar box of modulus one (`scalar(-1)`, `scalar(1j)`, `sqrt(-1)`, whose
+      value is `i`): a unitary on no qubit. -/
+  | phase (z : R) : star z * z = 1 → Listed (.scalar false z)
 
 theorem Listed.typed {b : CBox R} (h : b.Listed) : b.Typed := by
   cases h <;> simp_all [Typed]
@@ -1040,6 +1054,10 @@ theorem Listed.tp {b : CBox R} (h : b.Listed) : b.ar.TP := by
   | isometry d c u _ _ hr hc hu => exact CQMap.TP_pure _ _ u hr hc hu
   | stochastic d c u hd hc hu => exact CQMap.TP_classical _ _ u hd hc hu
   | swap l r => exact CQMap.TP_swap _ _
+  | phase z hz =>
+    show (CQMap.scalar (star z * z) : CQMap R).TP
+    rw [hz]
+    exact CQMap.TP_scalar_one
 
 end CBox
 
